@@ -233,7 +233,7 @@ pub async fn emit_hsack(run: &mut Run, ep: &mut Endpoint, c: &HsackCase, verbose
     run.case("hsack", &input, &out, true);
 }
 
-fn hsack_cases(run: &mut Run, rng: &mut Rng, thorough: bool) {
+pub fn hsack_cases(run: &mut Run, rng: &mut Rng, thorough: bool) {
     let rt = tokio::runtime::Builder::new_current_thread().enable_all().build().unwrap();
     rt.block_on(async {
         let mut ep = Endpoint::new(57_900, 57_901, true, &EpCfg::default(), &[]).await;
@@ -544,6 +544,17 @@ pub fn oracle(c: &Case, o: &Outcome) -> Vec<(String, String)> {
             let submitted: Vec<&Vec<u8>> = c.msgs.iter().filter(|m| m.side == side && m.chan == ch.id).map(|m| &m.data).collect();
             let delivered: Vec<&Bytes> = o.events[peer].iter().filter(|(id, _)| *id == ch.id)
                 .filter_map(|(_, e)| if let DataChannelEvent::Message(m) = e { Some(m) } else { None }).collect();
+            // chunks injected by script 1 (End::Script): every one of them — queued beyond the receive queue's cap or not —
+            // is delivered exactly once after the missing TSN arrives
+            let delivered: Vec<&Bytes> = if c.end == End::Script(peer, 1) && ch.id == 1 && o.ended {
+                let flood: std::collections::BTreeSet<&[u8]> = delivered.iter().filter(|d| d.starts_with(b"FLOOD")).map(|d| d.as_ref()).collect();
+                let nflood = delivered.iter().filter(|d| d.starts_with(b"FLOOD")).count();
+                if flood.len() != FLOOD_N + 1 || nflood != FLOOD_N + 1 {
+                    fails.push(("rq:chunk-lost-at-the-receive-queue-cap".into(), format!("{} received {} chunks out of order and then the missing one: {} of {} delivered ({} distinct)",
+                        ["A", "B"][peer], FLOOD_N, nflood, FLOOD_N + 1, flood.len())));
+                }
+                delivered.into_iter().filter(|d| !d.starts_with(b"FLOOD")).collect()
+            } else { delivered };
             let mut kind = None;
             for (i, d) in delivered.iter().enumerate() {
                 if i >= submitted.len() { kind = Some(("extra", format!("delivery #{i} beyond the {} submitted", submitted.len()))); break; }
@@ -658,6 +669,12 @@ fn link_cases(args: &Args, rng: &mut Rng) -> Vec<LinkCase> {
         c.msgs.push(Msg { side: 0, chan: 1, data: payload(0, 1, 4, 70), phase: 1, task: 0 });
         c.closes = vec![(*closer, 2)];
         v.push(LinkCase { name: format!("close-sibling-midway{i}"), case: c });
+    }
+    // more chunks queued out of order than the receive queue's cap (a foreign or fast peer may do it): none is dropped
+    {
+        let mut c = mk_case(&[300, 5000], vec![], None);
+        c.end = End::Script(1, 1);
+        v.push(LinkCase { name: "receive-queue-beyond-cap".into(), case: c });
     }
     // thorough: every pair of faults on the four setup chunks
     if args.tier_thorough {
